@@ -475,9 +475,15 @@ func TestC01_BridgeConservation(t *testing.T) {
 				recv := rapid.SampledFrom([]string{users[0].Addr.String(), users[1].Addr.String(), "garbage", authtypes.NewModuleAddress("bonded_tokens_pool").String()}).Draw(t, "receiver")
 				n := rapid.SampledFrom([]int{2, 3, 4, 4}).Draw(t, "voters")
 				skyNonce++
+				// now and then the event is reported at a remote height below one already observed: the chain refuses to move
+				// its remote-height record backwards, so such a claim can never take effect (and nothing of it may)
+				remoteHeight := 1000 + skyNonce
+				if rapid.IntRange(0, 7).Draw(t, "remoteHeightRollback") == 0 {
+					remoteHeight = 500
+				}
 				okc := 0
 				for _, v := range c.Vals[:n] {
-					if b.Tx(&skywaytypes.MsgSendToPalomaClaim{Metadata: chain.MD(v.Actor), Orchestrator: v.Addr.String(), EventNonce: skyNonce, SkywayNonce: skyNonce, EthBlockHeight: 1000 + skyNonce, TokenContract: erc20, Amount: sdkmath.NewInt(amt),
+					if b.Tx(&skywaytypes.MsgSendToPalomaClaim{Metadata: chain.MD(v.Actor), Orchestrator: v.Addr.String(), EventNonce: skyNonce, SkywayNonce: skyNonce, EthBlockHeight: remoteHeight, TokenContract: erc20, Amount: sdkmath.NewInt(amt),
 						EthereumSender: "0x00000000000000000000000000000000000000b1", PalomaReceiver: recv, ChainReferenceId: c01Chain, CompassId: "compass-1"}) == nil {
 						okc++
 					}
@@ -487,7 +493,7 @@ func TestC01_BridgeConservation(t *testing.T) {
 				} else {
 					claims[skyNonce] = claimRec{kind: "deposit", erc20: erc20, amount: amt}
 				}
-				log = append(log, fmt.Sprintf("depositClaim(n=%d,%d,recv=%.10s,%d/%d votes)", skyNonce, amt, recv, okc, n))
+				log = append(log, fmt.Sprintf("depositClaim(n=%d,%d,recv=%.10s,h=%d,%d/%d votes)", skyNonce, amt, recv, remoteHeight, okc, n))
 				check(t, "depositClaim")
 			},
 			"housekeepingOp": func(t *rapid.T) {
